@@ -13,6 +13,9 @@
 (*         TLC folds WalletKeys over the history: index bookkeeping,       *)
 (*         documented path of every key, refusals, distinct addresses,     *)
 (*         tree shape, restored wallets list identical addresses.          *)
+(*         For a multisig wallet the key tables of its cosigner wallets:   *)
+(*         tree shape, documented path (BIP45 / BIP48) of every key, every *)
+(*         position of the multisig wallet present.                        *)
 (*  key    one key of such a table with the key it hangs under: TLC        *)
 (*         decides with the operators of Bip32 (CKDpriv / CKDpub, master   *)
 (*         key generation) whether its private key, public key, chain      *)
@@ -66,6 +69,46 @@ OutPathsWhy(cfg, a, e) ==
     ELSE IF \E k \in 1..Len(e.out) : TextTokens(e.out[k].path) # PosTokens(cfg, PosObs(e.out[k])) THEN "path-differs-from-documented-path"
     ELSE "ok"
 
+\* the position a key's path text denotes (change and index: its last two elements)
+PathPos(o) == LET toks == TextTokens(o.path)  n == Len(toks) IN
+              IF n >= 3 /\ IsDec(toks[n]) /\ IsDec(toks[n - 1]) THEN [PosObs(o) EXCEPT !.ch = DecVal(toks[n - 1]), !.idx = DecVal(toks[n])]
+              ELSE PosObs(o)
+\* DevMsColumns explains a disallowed answer: the keys are at the paths of an allowed answer, and exactly the newly created
+\* ones carry the change / index arguments of the call in their columns
+MsColumnsExplain(cfg, s, a, e) ==
+    LET out   == [k \in 1..Len(e.out) |-> PosObs(e.out[k])]
+        outp  == [k \in 1..Len(e.out) |-> PathPos(e.out[k])]
+        wrong == {k \in 1..Len(out) : out[k] # outp[k]}
+        new   == SelectSeq(outp, LAMBDA p : p \notin s.keys)
+        chArg == IF a.op = "key_for_path" /\ a.form = "path" THEN 0 ELSE a.ch
+        ixArg == IF a.op = "key_for_path" THEN (IF a.form = "path" THEN 0 ELSE a.idx) ELSE IF new = <<>> THEN 0 ELSE new[1].idx
+    IN /\ cfg.ms /\ a.op \in {"new_keys", "get_keys", "key_for_path"}
+       /\ (a.n > 1 \/ (a.op = "key_for_path" /\ a.form = "path"))
+       /\ wrong # {}
+       /\ \A k \in wrong : out[k].ch = chArg /\ out[k].idx = ixArg /\ outp[k] \notin s.keys
+       /\ \A k \in 1..Len(outp) : TextTokens(e.out[k].path) = PosTokens(cfg, outp[k])
+       /\ Allowed(cfg, s, a, outp) = "ok"
+MsForeignExplain(cfg, s, a, out) ==
+    /\ cfg.ms /\ (a.net # cfg.net \/ a.wt # cfg.wt) /\ KnownNet(a.net) /\ NetHasWt(a.net, a.wt)
+    /\ a.op \in {"new_keys", "get_keys", "key_for_path"}
+    /\ Allowed(cfg, s, a, out) = "ok"
+
+\* DevWatchAcct: the answer is the own account's chain from index 0 (key_for_path: from the index asked for), whatever
+\* account label the keys carry
+WatchAcctExplain(cfg, s, a, out) ==
+    /\ cfg.watch /\ ~cfg.ms /\ a.net = cfg.net /\ a.wt = cfg.wt /\ a.acct # cfg.acct
+    /\ a.op \in {"new_keys", "get_keys", "key_for_path"} /\ Len(out) = a.n
+    /\ \A k \in 1..Len(out) : [out[k] EXCEPT !.acct = cfg.acct]
+                                = Pos(Chain(cfg.net, cfg.wt, cfg.acct, a.ch), (IF a.op = "key_for_path" THEN a.idx ELSE 0) + k - 1)
+\* DevClashServed: apart from the coin type being taken the request is servable and the answer is the allowed one
+ClashExplain(cfg, s, a, out) ==
+    /\ ~cfg.watch /\ ~cfg.ms /\ a.op \in {"key_for_path", "new_keys", "get_keys"} /\ CoinClash(s, a.net) /\ KnownNet(a.net) /\ NetHasWt(a.net, a.wt)
+    /\ Allowed(cfg, s, a, out) = "ok"
+RefusalDevs(cfg, s, a, out) == IF MsForeignExplain(cfg, s, a, out) THEN <<DevMsForeign>>
+                               ELSE IF WatchAcctExplain(cfg, s, a, out) THEN <<DevWatchAcct>>
+                               ELSE IF ClashExplain(cfg, s, a, out) THEN <<DevClashServed>>
+                               ELSE <<>>
+
 RECURSIVE Fold(_, _, _, _)
 Fold(cfg, s, evs, i) ==
     IF i > Len(evs) THEN [v |-> "ok", at |-> 0, s |-> s, exp |-> <<>>, devs |-> <<>>]
@@ -84,9 +127,11 @@ Fold(cfg, s, evs, i) ==
             THEN (IF ~(MustRefuse(cfg, s, a) \/ MayRefuse(cfg, s, a)) THEN bad("refused-a-valid-request", Expected(s, a))
                   ELSE IF obs(s) # "ok" THEN bad(obs(s), FlatSeq(<<>>))
                   ELSE Fold(cfg, s, evs, i + 1))
-            ELSE IF MustRefuse(cfg, s, a) THEN bad("answered-a-request-it-cannot-serve", FlatSeq(out))
+            ELSE IF MustRefuse(cfg, s, a)
+                 THEN [bad("answered-a-request-it-cannot-serve", FlatSeq(out)) EXCEPT !.devs = RefusalDevs(cfg, s, a, out)]
             ELSE LET why == Allowed(cfg, s, a, out) IN
-                 IF why # "ok" THEN [bad(why, Expected(s, a)) EXCEPT !.devs = Attribution(cfg, s, a, out)]
+                 IF why # "ok" THEN [bad(why, Expected(s, a)) EXCEPT !.devs = IF MsColumnsExplain(cfg, s, a, e) THEN <<DevMsColumns>>
+                                                                                  ELSE Attribution(cfg, s, a, out)]
                  ELSE IF OutPathsWhy(cfg, a, e) # "ok" THEN bad(OutPathsWhy(cfg, a, e), Expected(s, a))
                  ELSE LET s2 == After(cfg, s, a, out) IN
                       IF obs(s2) # "ok" THEN bad(obs(s2), <<>>) ELSE Fold(cfg, s2, evs, i + 1)
@@ -100,14 +145,20 @@ TreeWhy(cfg, T, i) ==
     LET k    == T[i]
         toks == TextTokens(k.path)
         base == IF cfg.watch THEN PubMasterDepth(cfg.ms, cfg.wt) ELSE 0
-    IN IF k.depth # base + Len(toks) - 1 THEN "depth-differs-from-path-length"
+        kc   == [cfg EXCEPT !.cos = k.cos]          \* BIP45: the cosigner index is part of the path, stored with the key
+    IN IF k.kt = "multisig"                         \* the script keys of a multisig wallet: no tree, the path of the own cosigner
+       THEN (IF ~cfg.ms THEN "multisig-key-in-a-single-signature-wallet"
+             ELSE IF k.depth # KeyDepth(TRUE, k.wt) THEN "depth-differs-from-path-length"
+             ELSE IF toks # PosTokens(cfg, RowPos(k)) THEN "path-differs-from-documented-path"
+             ELSE "ok")
+       ELSE IF k.depth # base + Len(toks) - 1 THEN "depth-differs-from-path-length"
        ELSE IF k.parent = 0 THEN (IF toks # <<IF cfg.watch THEN UpperM ELSE LowerM>> THEN "root-key-path" ELSE "ok")
        ELSE IF ~HasId(T, k.parent) THEN "parent-key-missing"
        ELSE LET par == RowById(T, k.parent) IN
             IF Len(toks) < 2 \/ SubSeq(toks, 1, Len(toks) - 1) # TextTokens(par.path) THEN "path-is-not-parent-path-plus-one-element"
             ELSE IF k.net # par.net /\ par.depth >= 2 THEN "network-differs-from-parent"
-            ELSE IF IsLeaf(cfg, k) /\ toks # PosTokens(cfg, RowPos(k)) THEN "path-differs-from-documented-path"
-            ELSE IF ~cfg.watch /\ k.depth = PubMasterDepth(cfg.ms, k.wt) /\ toks # AcctTokens(cfg, Acct(k.net, k.wt, k.acct))
+            ELSE IF IsLeaf(cfg, k) /\ toks # PosTokens(kc, RowPos(k)) THEN "path-differs-from-documented-path"
+            ELSE IF ~cfg.watch /\ k.depth = PubMasterDepth(cfg.ms, k.wt) /\ toks # AcctTokens(kc, Acct(k.net, k.wt, k.acct))
                  THEN "account-key-path-differs-from-documented-path"
             ELSE "ok"
 FirstBad(n, Why(_)) == IF \E i \in 1..n : Why(i) # "ok" THEN CHOOSE i \in 1..n : Why(i) # "ok" /\ \A j \in 1..(i - 1) : Why(j) = "ok" ELSE 0
@@ -129,18 +180,33 @@ RestoredWhy(cfg, T, R) ==
             THEN "restored-wallet-path-differs-from-documented-path"
        ELSE "ok"
 
+\* ---- the cosigner wallets of a multisig wallet: each a tree of its own (from the cosigner's master key, or from the
+\* account public key that was given); for every position of the multisig wallet it holds the key at the documented path
+CoTreeWhy(mcfg, C, want) ==
+    LET cfg  == [mcfg EXCEPT !.watch = C.watch]
+        T    == C.keys
+        tb   == FirstBad(Len(T), LAMBDA i : TreeWhy(cfg, T, i))
+        \* (BIP45: the cosigner index of the multisig wallet is part of the path)
+        have == {RowPos(T[i]) : i \in {j \in LeafRows(cfg, T) : cfg.wt = "legacy" => T[j].cos = cfg.cos}}
+    IN IF tb # 0 THEN "cosigner-wallet: " \o TreeWhy(cfg, T, tb)
+       ELSE IF ~(want \subseteq have) THEN "cosigner-wallet-misses-a-position-of-the-multisig-wallet"
+       ELSE IF \E i, j \in 1..Len(T) : i < j /\ T[i].P = T[j].P THEN "cosigner-wallet-holds-a-key-twice"
+       ELSE "ok"
+
 JTrace(r) ==
     LET cfg == Cfg(r.cfg)
         f   == Fold(cfg, InitS(cfg), r.events, 1)
         T   == r.keys
         tb  == FirstBad(Len(T), LAMBDA i : TreeWhy(cfg, T, i))
         rb  == FirstBad(Len(r.restored), LAMBDA i : RestoredWhy(cfg, T, r.restored[i]))
+        cb  == FirstBad(Len(r.cotrees), LAMBDA i : CoTreeWhy(cfg, r.cotrees[i], f.s.keys))
     IN IF f.v # "ok" THEN Verdict(f.v, f.devs, f.at, f.exp)
        ELSE IF {RowPos(T[i]) : i \in LeafRows(cfg, T)} # f.s.keys \/ Cardinality(LeafRows(cfg, T)) # Cardinality(f.s.keys)
             THEN Verdict("key-table-differs-from-issued-positions", <<>>, 0, <<>>)
        ELSE IF tb # 0 THEN Verdict(TreeWhy(cfg, T, tb), <<>>, T[tb].id, <<>>)
        ELSE IF \E i, j \in 1..Len(T) : i < j /\ T[i].addr = T[j].addr THEN Verdict("two-keys-share-an-address", <<>>, 0, <<>>)
        ELSE IF rb # 0 THEN Verdict(RestoredWhy(cfg, T, r.restored[rb]), <<>>, rb, <<>>)
+       ELSE IF cb # 0 THEN Verdict(CoTreeWhy(cfg, r.cotrees[cb], f.s.keys), <<>>, cb, <<>>)
        ELSE Good
 
 (* =============================== key ====================================== *)
@@ -210,7 +276,8 @@ JKey(r) ==
     LET F == r.facts
         g == r.child
         e == ExpectedKey(F, r)
-        ad == AddrWhy(F, r.net, r.wt, g.P, g.addr)
+        \* (the single keys of a cosigner wallet are never paid to: their address column is not judged)
+        ad == IF r.noaddr THEN [st |-> "ok", why |-> "", need |-> <<>>] ELSE AddrWhy(F, r.net, r.wt, g.P, g.addr)
         alts == {w \in VersionClass(r.net, r.wt) : w # r.wt}
         alt(w) == AddrWhy(F, r.net, w, g.P, g.addr)
         altneed == IF ad.st = "ok" /\ ad.why = "address" THEN {w \in alts : alt(w).st = "need"} ELSE {}
